@@ -131,6 +131,7 @@ def run(idx: ProgramIndex, rep: Report, tier: str):
     aliasing_obligations(idx, rep, "C14-5", funcs, 60, "variational strategy / distribution methods interpreted")
 
     encoded_consistently(idx, rep)
+    predictive_assembly(idx, rep)
 
 
 # ---- C14-6: q(u) is what the parameters encode, for every reader and in every mode ---------------------------------------
@@ -220,3 +221,97 @@ def encoded_consistently(idx: ProgramIndex, rep: Report):
                 "q(u) does not depend on the training flag" if not reads else
                 "forward branches on self.training (line %d): the same parameters encode a different q(u) in training and in evaluation mode" % reads[0].lineno, {})
     rep.floor("C14-6", "variational distribution forwards", k, 5)
+
+
+# ---- C14-7: predictive q(f) assembly in the non-commutative affine domain -------------------------------------------------
+def _joint_classifier(fi: FuncInfo, z_param: str, x_param: str, extra: Dict[str, str]):
+    """symbols for blocks of the joint prior on cat([Z, X]): K{Z,X}{Z,X}, M{Z,X}; the Cholesky factor of KZZ is L"""
+    sn = fi.params[0]
+
+    def is_joint(e: ast.AST) -> bool:
+        """<self.model.forward(cat([Z, X]) ...)>"""
+        if isinstance(e, ast.Call) and chain(e.func) in ("%s.model.forward" % sn, "%s.model" % sn) and e.args:
+            a = e.args[0]
+            return isinstance(a, ast.Call) and chain(a.func) == "torch.cat" and a.args and isinstance(a.args[0], (ast.List, ast.Tuple)) \
+                and [src(x) for x in a.args[0].elts] == [z_param, x_param]
+        return False
+
+    def side(sl: ast.AST) -> Optional[str]:
+        """`:n` -> Z, `n:` -> X  with n = Z.size(-2)"""
+        if not isinstance(sl, ast.Slice) or sl.step is not None:
+            return None
+
+        def is_n(e):
+            return isinstance(e, ast.Call) and isinstance(e.func, ast.Attribute) and e.func.attr == "size" and chain(e.func.value) == z_param and [src(a) for a in e.args] == ["-2"]
+        if sl.lower is None and sl.upper is not None and is_n(sl.upper):
+            return "Z"
+        if sl.upper is None and sl.lower is not None and is_n(sl.lower):
+            return "X"
+        return None
+
+    def classify(e: ast.AST) -> Optional[str]:
+        c = chain(e)
+        if c in extra:
+            return extra[c]
+        if isinstance(e, ast.Name) and e.id in extra:
+            return extra[e.id]
+        if isinstance(e, ast.Subscript) and isinstance(e.slice, ast.Tuple):
+            el = e.slice.elts
+            base = e.value
+            if isinstance(base, ast.Attribute) and base.attr in ("lazy_covariance_matrix", "covariance_matrix") and is_joint(base.value) and len(el) == 3 and isinstance(el[0], ast.Constant) and el[0].value is Ellipsis:
+                r, cc = side(el[1]), side(el[2])
+                if r and cc:
+                    return "K" + r + cc
+            if isinstance(base, ast.Attribute) and base.attr in ("mean", "loc") and is_joint(base.value) and len(el) == 2 and isinstance(el[0], ast.Constant) and el[0].value is Ellipsis:
+                r = side(el[1])
+                if r:
+                    return "M" + r
+        if isinstance(e, ast.Call) and chain(e.func) == "%s._cholesky_factor" % sn and e.args:
+            inner = e.args[0]
+            while isinstance(inner, ast.Call) and isinstance(inner.func, ast.Attribute) and inner.func.attr in ("add_jitter", "to_dense", "evaluate_kernel"):
+                inner = inner.func.value
+            if classify(inner) == "KZZ":
+                return "L"
+        return None
+    return classify
+
+
+def predictive_assembly(idx: ProgramIndex, rep: Report):
+    from ..domains.linalg import LinEval, lin
+    from ..symbolic import inline, walk_paths
+    rep.rule("C14-7", "q(f) of the whitened strategy: mean = K_XZ L^-T m + mu_X, covariance = K_XX + K_XZ L^-T (S - P) L^-1 K_ZX with L = chol(K_ZZ), blocks of the joint prior on [Z; X] (non-commutative affine normal form)")
+    V = idx.find_class("VariationalStrategy")
+    fi = idx.method(V, "forward", own=True)
+    ps = fi.params
+    if len(ps) < 5:
+        raise AnalysisError("anchor vanished: signature of VariationalStrategy.forward")
+    xp, zp, mp, sp = ps[1], ps[2], ps[3], ps[4]
+    classify = _joint_classifier(fi, zp, xp, {mp: "m", sp: "S", "%s.prior_distribution.lazy_covariance_matrix" % ps[0]: "P"})
+    sym = {"KZZ", "KXX", "S", "P"}
+    want_mean = lin({("KZX^T", "L^-T", "m"): 1, ("MX",): 1})
+    want_cov_s = lin({("KXX",): 1, ("KZX^T", "L^-T", "S", "L^-1", "KZX"): 1, ("KZX^T", "L^-T", "P", "L^-1", "KZX"): -1})
+    want_cov_0 = lin({("KXX",): 1, ("KZX^T", "L^-T", "P", "L^-1", "KZX"): -1})
+    n = 0
+    probs = []
+    for path, seq in walk_paths(fi):
+        s_none = None
+        for s_ in path.steps:
+            if s_.kind == "assume" and " ".join(src(s_.node).split()) in ("%s is not None" % sp, "%s is None" % sp):
+                s_none = (s_.truth is False) if "is not" in src(s_.node) else bool(s_.truth)
+        for st, env in seq:
+            if not (isinstance(st, ast.Return) and st.value is not None):
+                continue
+            r = inline(st.value, env)
+            if not (isinstance(r, ast.Call) and (chain(r.func) or "").split(".")[-1] == "MultivariateNormal" and len(r.args) >= 2):
+                continue
+            n += 1
+            le = LinEval(classify, sym)
+            m, c = le.ev(r.args[0]), le.ev(r.args[1])
+            cond = "with S" if not s_none else "without S"
+            if m is None or m != want_mean:
+                probs.append("mean (%s) is `%s`, expected `%s`" % (cond, m.show() if m is not None else "not of matrix-affine shape", want_mean.show()))
+            wc = want_cov_0 if s_none else want_cov_s
+            if c is None or c != wc:
+                probs.append("covariance (%s) is `%s`, expected `%s`" % (cond, c.show() if c is not None else "not of matrix-affine shape", wc.show()))
+    rep.add("C14-7", "%s:VariationalStrategy.forward" % V.module.name, fi.where, n >= 2 and not probs,
+            "on all %d returning paths: mean = KZX^T L^-T m + MX; covariance = KXX + KZX^T L^-T (S - P) L^-1 KZX" % n if n >= 2 and not probs else "; ".join(sorted(set(probs))[:3]) or "no returning path constructs the distribution", {"paths": n})
